@@ -4,49 +4,43 @@
  'include': ['/verif/units/C19/cxxshim'],
  'clauses': 'path_compare_node(a, b) compares the components at a and b (bytes up to the next slash / NUL) lexicographically: the components '
             'agree on [0, i); 0 iff both end at i; -1 iff a ends first or a[i] < b[i]; 1 iff b ends first or a[i] > b[i] (bytes compared as plain char, '
-            'as the source does); reads only the two components and their end bytes, writes nothing',
+            'as the source does); a and b may point anywhere into their strings (symbolic start offset); reads only the two components and their '
+            'end bytes, writes nothing.  The asserted clause is C19_CMP_POST of contracts/c19_path_contracts.h, the contract path_remove_prefix uses.',
  'inject': [{'file': 'igris/util/pathops.h', 'func': 'path_compare_node', 'at': 'func-begin', 'ghost': 'g_a0 = a; g_b0 = b;'},
-            {'file': 'igris/util/pathops.h', 'func': 'path_compare_node', 'at': 'before', 'anchor': 'return *a < *b ? -1 : 1;', 'ghost': 'g_i = C19_OFF(a, g_a0);'},
-            {'file': 'igris/util/pathops.h', 'func': 'path_compare_node', 'at': 'before', 'anchor': 'if (*a == \'\\0\' || *a == \'/\')', 'ghost': 'g_i = C19_OFF(a, g_a0);'},
+            {'file': 'igris/util/pathops.h', 'func': 'path_compare_node', 'at': 'before', 'anchor': 'return *a < *b ? -1 : 1;', 'ghost': 'g_cmp_i = (size_t)(a - g_a0);'},
+            {'file': 'igris/util/pathops.h', 'func': 'path_compare_node', 'at': 'before', 'anchor': 'if (*a == \'\\0\' || *a == \'/\')', 'ghost': 'g_cmp_i = (size_t)(a - g_a0);'},
             {'file': 'igris/util/pathops.h', 'func': 'path_compare_node', 'loop': 0, 'expect': 'while (*a !=',
-             'assigns': 'a, b, g_i',
-             'invariants': ['__CPROVER_same_object(a, g_a0) && __CPROVER_POINTER_OFFSET(g_a0) == 0 && __CPROVER_same_object(b, g_b0) && __CPROVER_POINTER_OFFSET(g_b0) == 0',
-                            '__CPROVER_POINTER_OFFSET(a) == __CPROVER_POINTER_OFFSET(b)',
-                            '0 <= __CPROVER_POINTER_OFFSET(a) && (size_t)__CPROVER_POINTER_OFFSET(a) <= g_La && (size_t)__CPROVER_POINTER_OFFSET(a) <= g_Lb',
-                            'g_k < (size_t)__CPROVER_POINTER_OFFSET(a) ==> (g_a0[g_k] == g_b0[g_k] && !C19_PEND(g_a0[g_k]))'],
-             'decreases': 'g_La - (size_t)__CPROVER_POINTER_OFFSET(a)'}],
- 'ghost_calls': ['C19_OFF'],
+             'assigns': 'a, b, g_cmp_i',
+             'invariants': ['__CPROVER_same_object(a, g_a0) && __CPROVER_same_object(b, g_b0)',
+                            'C19_POFF(g_a0) <= C19_POFF(a) && C19_POFF(a) <= g_Ta && C19_POFF(g_b0) <= C19_POFF(b) && C19_POFF(b) <= g_Tb',
+                            'C19_POFF(a) - C19_POFF(g_a0) == C19_POFF(b) - C19_POFF(g_b0)',
+                            'g_cmp_k < C19_POFF(a) - C19_POFF(g_a0) ==> (g_a0[g_cmp_k] == g_b0[g_cmp_k] && !C19_PEND(g_a0[g_cmp_k]))'],
+             'decreases': 'g_Ta - C19_POFF(a)'}],
  'witness': {'unwind': 9},
 } @*/
-#include "c19_path.h"
-size_t g_La, g_Lb, g_k, g_i;
+#include "c19_path_contracts.h"
+size_t g_Ta, g_Tb; /* absolute offsets of the terminators */
 const char *g_a0, *g_b0;
 #include <igris/util/pathops.h>
 
 void harness(void)
 {
+    WIT(size_t, offa);
+    WIT(size_t, offb);
     WIT(size_t, La);
     WIT(size_t, Lb);
     WIT(size_t, k);
     WIT_ARR(char, ca, 8);
     WIT_ARR(char, cb, 8);
-    C19_STRING(a, La, ca, 0);
-    C19_STRING(b, Lb, cb, 0);
-    g_La = La;
-    g_Lb = Lb;
-    g_k = k;
+    C19_PSTRING(a, offa, La, ca, 0);
+    C19_PSTRING(b, offb, Lb, cb, 0);
+    g_Ta = offa + La;
+    g_Tb = offb + Lb;
+    g_cmp_k = k;
+    g_path_spare = 0; /* ghost globals are set explicitly: the instrumented program does not zero-initialise them */
 
     int r = path_compare_node(a, b);
 
-    /* g_i: index at which the comparison stopped (ghost output) */
-    size_t i = g_i;
-    __CPROVER_assert(i <= La && i <= Lb, "compare_node: stop position inside both strings");
-    __CPROVER_assert(!(k < i) || (a[k] == b[k] && !C19_PEND(a[k])), "compare_node: the components agree before the stop position and do not end there");
-    if (C19_PEND(a[i]))
-        __CPROVER_assert(r == (C19_PEND(b[i]) ? 0 : -1), "compare_node: a ends: 0 when b ends too, else -1 (a is a proper prefix)");
-    else if (C19_PEND(b[i]))
-        __CPROVER_assert(r == 1, "compare_node: b ends first: 1");
-    else
-        __CPROVER_assert(a[i] != b[i] && r == (a[i] < b[i] ? -1 : 1), "compare_node: first differing byte decides");
+    __CPROVER_assert(C19_CMP_POST(r, a, b), "compare_node: contract clause C19_CMP_POST (lexicographic comparison of the two components)");
     CANARY("compare_node end reachable");
 }
